@@ -430,10 +430,10 @@ def r5(R):
     orders = [tuple(t.value for t in ast.walk(l.iter) if isinstance(t, ast.Constant) and isinstance(t.value, str)) for l in loops]
     R.check(("xl", "yl", "zl") in orders and ("tth", "eta", "ds", "gx", "gy", "gz") in orders, "C01.R5", CF, top[0].lineno, "columnfile.updateGeometry",
             "fast branch column order %s" % orders, "out[:, i] columns are attached to the wrong names (compute_geometry writes tth, eta, ds, gx, gy, gz)")
-    fu = " ".join(src(s) for s in top[0].body)
+    fu = pyfacts.closure_src(m, list(top[0].body))
     R.check("tx, ty, tz = translation" in fu and "pars.get('t_x')" in fu and "pars.get('t_y')" in fu and "pars.get('t_z')" in fu, "C01.R5", CF, top[0].lineno,
             "columnfile.updateGeometry", "fast: translation else t_x,t_y,t_z", "fast route takes the grain position from somewhere else")
-    su = " ".join(src(s) for s in top[0].orelse)
+    su = pyfacts.closure_src(m, list(top[0].orelse))
     R.check("pars['t_x'] = translation[0]" in su and "pars['t_y'] = translation[1]" in su and "pars['t_z'] = translation[2]" in su, "C01.R5", CF, top[0].lineno,
             "columnfile.updateGeometry", "slow: translation overrides t_x,t_y,t_z", "slow route takes the grain position from somewhere else")
     # omegasign in the slow branch
@@ -459,7 +459,7 @@ def rg_compute_gv(R, rule):
     for c in ast.walk(g):
         if isinstance(c, ast.Call) and (pyfacts.dotted(c.func) or "").startswith("transform."):
             nm = (pyfacts.dotted(c.func) or "").split(".")[-1]
-            args = [src(a) for a in c.args] + ["%s=%s" % (k.arg, src(k.value)) for k in c.keywords]
+            args = [pyfacts.resolved_src(g, a) for a in c.args] + ["%s=%s" % (k.arg, pyfacts.resolved_src(g, k.value)) for k in c.keywords]
             txt = " ".join(args)
             if nm in ("compute_g_vectors", "uncompute_g_vectors"):
                 roles = [role_of(mr, g, a) for a in c.args]
@@ -470,5 +470,5 @@ def rg_compute_gv(R, rule):
                     R.check(roles.index("wavelength") < roles.index("wedge") < roles.index("chi"), rule, RG, c.lineno, "refinegrains.compute_gv",
                             "%s argument order wavelength, wedge, chi" % nm, "wedge and chi are swapped")
             if nm in ("compute_tth_eta_from_xyz", "compute_g_vectors"):
-                R.check("om * sign" in txt or "omega_calc" in txt, rule, RG, c.lineno, "refinegrains.compute_gv", "%s uses om*sign (or the fitted omega)" % nm,
+                R.check("om * sign" in txt or "sign * om" in txt or "omega_calc" in txt, rule, RG, c.lineno, "refinegrains.compute_gv", "%s uses om*sign (or the fitted omega)" % nm,
                         "the omega sign is dropped on this call")
